@@ -486,6 +486,31 @@ def check_dims(ctx, chk):
         chk.ob("C09.dims", "Observation.from_action_result writes success / connection / permission "
                "/ undefined error into slots 0,1,2,3 of the auxiliary row and nothing else",
                st == want, str(st), f"{ob.module.path}:{m.node.lineno}")
+    # ... and the readable decoder labels each flag by its own name
+    labels = {"Success": 0, "Connection Error": 1, "Permission Error": 2, "Undefined Error": 3}
+    gr = ob.methods.get("get_readable")
+    if gr is not None:
+        ip_r = Interp(ctx.repo, ctx.types, param_types={gr.params[0]: "Observation"},
+                      no_inline=("nasim.envs.host_vector:HostVector.get_readable",))
+        s_r = ip_r.run(gr)
+        cn_r = Canon(ip_r, ctx.layout, names={("param", gr.params[0]): "self"})
+        auxd = None
+        if len(s_r.returns) == 1 and s_r.returns[0][1][0] == "tuple" \
+                and len(s_r.returns[0][1][1]) == 2 and s_r.returns[0][1][1][1][0] == "dictobj":
+            h_ = ip_r.heap[s_r.returns[0][1][1][1][1]]
+            if not h_["dyn"]:
+                auxd = {k_: cn_r.show(v_) for k_, v_ in h_["items"].items()}
+        if auxd is None:
+            chk.undecided("C09.accessor", "Observation.get_readable labels each aux flag by its own "
+                          "name", "the auxiliary dictionary is not a literal dict the analysis can "
+                          "enumerate", f"{ob.module.path}:{gr.node.lineno}")
+        else:
+            bad = {lab: auxd.get(lab) for lab, k in labels.items()
+                   if auxd.get(lab) != f"self[#self.aux_row].@{k}"}
+            chk.ob("C09.accessor", "Observation.get_readable labels each aux flag by its own name "
+                   "(Success / Connection Error / Permission Error / Undefined Error = slots "
+                   "0..3)", not bad, f"mislabelled: {bad}" if bad else "",
+                   f"{ob.module.path}:{gr.node.lineno}")
 
 
 def check_flatten_reshape(ctx, chk):
